@@ -59,6 +59,7 @@ both in patterns and in the paths they are matched against.
 
 import copy
 import glob
+import os
 import re
 from collections.abc import Collection, Iterable, Iterator
 from typing import Self
@@ -67,6 +68,7 @@ import attrs
 from path import Path
 
 __all__ = (
+    "NGLOB_REGEX_FLAGS",
     "NamedGlob",
     "NamedGlobMatch",
     "convert_nglob_to_glob",
@@ -92,6 +94,13 @@ RE_WILD_PARTS = [
     r"[?]",  # anonymous ? wildcard
     r"\$\{\*[a-zA-Z0-9_]*?}",  # named wildcard
 ]
+
+NGLOB_REGEX_FLAGS = re.DOTALL
+"""The flags every regular expression from `convert_nglob_to_regex` must be compiled with.
+
+Without `re.DOTALL`, the `.*` that a recursive wildcard `**` compiles to does not match a newline,
+so a path with a newline in one of its names would be found by `glob` but rejected by the matcher.
+"""
 
 RE_ANY_WILD = re.compile("(" + "|".join(RE_WILD_PARTS) + ")")
 RE_TRAILING_RECURSIVE_WILD = re.compile("(" + "|".join(RE_TRAILING_RECURSIVE_WILD_PARTS) + ")")
@@ -200,7 +209,9 @@ class NamedGlob:
 
     @_regex.default
     def _default_regex(self) -> re.Pattern[str]:
-        return re.compile(convert_nglob_to_regex(self._pattern, self._subs))
+        # DOTALL, because the `.*` of a recursive wildcard must also match a newline in a name,
+        # just like `glob` does (see `NGLOB_REGEX_FLAGS`).
+        return re.compile(convert_nglob_to_regex(self._pattern, self._subs), NGLOB_REGEX_FLAGS)
 
     @property
     def pattern(self) -> str:
